@@ -165,3 +165,38 @@ def fold_int(ctx, fi, expr):
     if isinstance(v, bool) or not isinstance(v, int):
         return None
     return v
+
+
+def enum_identity(ctx, rule, modules):
+    """SerializableEnum members are ordinary instances with a value-based __eq__, not singletons: PacketType(x),
+    RetryMode(x) and deserialisation create fresh objects. An identity test (`is` / `is not`) against a member is
+    therefore false for equal values that were constructed - the guarded branch silently stops being taken."""
+    n = 0
+    bad = []
+    for fi in ctx.repo.all_functions():
+        if fi.module.name not in modules:
+            continue
+        for c in walk_own(fi.node):
+            if isinstance(c, ast.Compare) and any(isinstance(o, (ast.Is, ast.IsNot)) for o in c.ops):
+                for side in [c.left] + c.comparators:
+                    v = ctx.folder.fold(side, fi.module, cls=fi.cls)
+                    if isinstance(v, EnumVal):
+                        bad.append((fi, c, v))
+            elif isinstance(c, ast.Compare):
+                n += 1
+    for (fi, c, v) in bad:
+        ctx.violated(rule, fi, c, "identity comparison with the enum member %r: equal values built by %s(x) are different objects, the test is false for them" % (v, v.cls_qual.split(":")[-1]),
+                     witness={"member": repr(v), "use": "== / != / in"}, line=c.lineno)
+    if not bad:
+        ctx.holds(rule, "%s:*" % ",".join(modules), "enum members are compared by value (no `is` / `is not`) in %s" % ", ".join(modules), "%d comparisons inspected" % n)
+
+
+def bound_by(fi, name, at_node, def_stmt):
+    """every reaching definition of `name` at the cfg node that evaluates `at_node` is the statement `def_stmt`"""
+    du = defuse_of(fi)
+    node = du.cfg.node_of(at_node)
+    target = du.cfg.node_of(def_stmt)
+    if node is None or target is None:
+        return False
+    defs = du.reaching(name, node.id)
+    return bool(defs) and all(d[0] == target.id for d in defs)
